@@ -106,9 +106,11 @@ def _run_check(engine, tier, seed, t0):
         print('  sig=%s cases=%d detail=%s' % (mr.get('sig'), len(unmatched),
                                              json.dumps(mr.get('detail'))[:600]))
     for k in known['findings']:
-        if k.get('property') == pid and known_hits.get(k['id']):
-            print('KNOWN-FINDING: property=%s %s (%s; hit %d times in this run)'
-                  % (pid, k['what'], k['id'], known_hits[k['id']]))
+        if k.get('property') == pid:
+            n = known_hits.get(k['id'], 0)
+            print('KNOWN-FINDING: property=%s %s (%s; %s)'
+                  % (pid, k['what'], k['id'],
+                     'reproduced %d times in this run' % n if n else 'listed; not exercised by this run\'s sample'))
     for line in lines:
         print(line)
 
